@@ -280,7 +280,8 @@ def main(argv=None):
     for t in trusted:
         assumptions.append('trusted (assumed, body not verified): %s' % t)
     notes = sorted({n for r in results for n in r.get('notes', [])})
-    ev = dict(property_id=pid, tier=tier, seed=seed, level='proof',
+    level = getattr(P, 'level', 'proof')
+    ev = dict(property_id=pid, tier=tier, seed=seed, level=level,
               coverage=dict(obligations=total, discharged=discharged,
                             checker_cmd='./check %s --tier %s' % (pid, tier),
                             trusted_base=['PyVC translation of the Python subset (DESIGN 2.2, assumption A1)', 'z3 5.1', 'cvc5 1.0.3 (for z3 unknowns)',
@@ -293,6 +294,14 @@ def main(argv=None):
                             engine_notes=notes, samples=samples or [dict(note='no sample')],
                             failing=[dict(id=f['id'], status=f['status']) for f, _, _ in violations]),
               assumptions=assumptions, wall_s=round(wall, 2), violations=len(violations))
+    if level == 'exploration':
+        # bounded stand-in: the exploration counts come from the native checks' own measurements
+        st = [b.get('stats') or {} for b in bounded]
+        ev['coverage'].update(evaluations=sum(int(b.get('cases') or 0) for b in bounded),
+                              distinct_nontrivial=sum(int(x.get('distinct', 0)) for x in st),
+                              rule=' | '.join('%s: %s' % (b['id'], (b.get('stats') or {}).get('rule', b.get('bound', ''))) for b in bounded),
+                              samples=[x for y in st for x in (y.get('samples') or [])][:6] or [dict(note='no sample')],
+                              exhaustive=False)
     # evidence is only recorded for runs against the repository itself; scratch trees (seeded changes) write elsewhere
     evdir = os.path.join(ROOT, 'evidence') if (os.path.realpath(repo) == '/repo' and not os.environ.get('VERIF_SCRATCH_EVIDENCE')) \
         else os.path.join(ROOT, '.tmp', 'evidence')
